@@ -161,9 +161,9 @@ class QuantumHedging:
         kron_var = cvxpy.kron(np.eye(2**self._num_reps), y_var)
         if self._num_reps == 1:
             u_var = cvxpy.multiply(cvxpy.multiply(self._pperm, kron_var), self._pperm.conj().T)
-            constraints = [cvxpy.real(u_var) >> self._q_a]
+            constraints = [u_var >> self._q_a]
         else:
-            constraints = [cvxpy.real(self._pperm @ kron_var @ self._pperm.conj().T) >> self._q_a]
+            constraints = [self._pperm @ kron_var @ self._pperm.conj().T >> self._q_a]
         problem = cvxpy.Problem(objective, constraints)
 
         return problem.solve()
@@ -226,9 +226,9 @@ class QuantumHedging:
 
         if self._num_reps == 1:
             u_var = cvxpy.multiply(cvxpy.multiply(self._pperm, kron_var), self._pperm.conj().T)
-            constraints = [cvxpy.real(u_var) << self._q_a]
+            constraints = [u_var << self._q_a]
         else:
-            constraints = [cvxpy.real(self._pperm @ kron_var @ self._pperm.conj().T) << self._q_a]
+            constraints = [self._pperm @ kron_var @ self._pperm.conj().T << self._q_a]
         problem = cvxpy.Problem(objective, constraints)
 
         return problem.solve()
